@@ -26,15 +26,18 @@ func ExportNetwork(network *Network, basePath string) error {
 
 	buses := network.Buses()
 	wg := &sync.WaitGroup{}
-	wg.Add(len(buses))
 
 	for _, bus := range buses {
 		f, err := os.Create(filepath.Join(dirPath, clearSpaces(bus.name)+dbc.FileExtension))
 		if err != nil {
+			// join the workers already started: they still read the network
+			// and write to files that are closed when this function returns
+			wg.Wait()
 			return err
 		}
 		defer f.Close()
 
+		wg.Add(1)
 		go exportBusAsync(f, bus, wg)
 	}
 
